@@ -597,6 +597,12 @@ func SameVar(v, e ssa.Value) bool {
 					if l, ok := e.(*ssa.UnOp); ok && l.Op == token.MUL && l.X == fv {
 						return true
 					}
+					// a captured variable assigned in this function: the load may denote what was stored
+					for _, r := range *fv.Referrers() {
+						if s, ok := r.(*ssa.Store); ok && s.Addr == fv && from(s.Val, d-1) {
+							return true
+						}
+					}
 				}
 			}
 		case *ssa.ChangeInterface:
@@ -1144,6 +1150,21 @@ func resolveFrom(v ssa.Value, stop ssa.Instruction, cut map[Edge]bool) []ssa.Val
 					}
 					return
 				}
+				if fv, ok := x.X.(*ssa.FreeVar); ok {
+					// captured variable: the values stored into it in this function that can reach the load
+					n := 0
+					for _, r := range *fv.Referrers() {
+						if st, ok := r.(*ssa.Store); ok && st.Addr == fv {
+							if st.Block() == x.Block() || st.Block().Dominates(x.Block()) || canReachBlock(st.Block(), x.Block()) {
+								n++
+								rec(st.Val, d-1)
+							}
+						}
+					}
+					if n > 0 && storeDominates(fv, x) {
+						return
+					}
+				}
 			}
 		}
 		out = append(out, v)
@@ -1429,4 +1450,33 @@ func ParamName(v ssa.Value) string {
 		}
 	}
 	return ""
+}
+
+func canReachBlock(a, b *ssa.BasicBlock) bool {
+	seen := map[*ssa.BasicBlock]bool{}
+	work := []*ssa.BasicBlock{a}
+	for len(work) > 0 {
+		x := work[0]
+		work = work[1:]
+		if x == b {
+			return true
+		}
+		if seen[x] {
+			continue
+		}
+		seen[x] = true
+		work = append(work, x.Succs...)
+	}
+	return false
+}
+
+// storeDominates: some store to the captured variable in this function dominates the load
+// (so the load cannot observe the value the variable had when the closure was entered).
+func storeDominates(fv *ssa.FreeVar, load *ssa.UnOp) bool {
+	for _, r := range *fv.Referrers() {
+		if st, ok := r.(*ssa.Store); ok && st.Addr == fv && Dominates(st, load) {
+			return true
+		}
+	}
+	return false
 }
